@@ -256,6 +256,79 @@ fn two_module_programs() -> Vec<(String, Vec<(String, String)>, String)> {
     out
 }
 
+/// Full product: binder form x body kind x use, plus chains of matches whose patterns are variables
+fn binding_form_programs() -> Vec<String> {
+    let head = "let { Bool } = import! std.types\ntype V = | A | C Int V\n";
+    let mut out = Vec::new();
+    // bodies of a one argument function named f with parameter x
+    let bodies: Vec<(&str, &str)> = vec![
+        ("const", "1"),
+        ("param", "x"),
+        ("self", "if x #Int< 1 then 0 else f (x #Int- 1)"),
+        ("self-tail-in-or", "if x #Int< 1 || x #Int== 100 then 0 else f (x #Int- 1)"),
+        ("closure", "(\\y -> y #Int+ x) 1"),
+        ("record", "{ a = x, b = [x] }.a"),
+        ("match", "match C x A with\n    | C y _ -> y\n    | A -> 0"),
+    ];
+    let uses = vec!["f 3", "(f 3, f 4)._0", "let g = f\ng 3", "[f 1, f 2]", "{ h = f }.h 2"];
+    for (bname, body) in &bodies {
+        let recursive = body.contains("f (");
+        let mut forms: Vec<String> = Vec::new();
+        if !recursive {
+            forms.push(format!("let f x =\n    {}", body));
+            forms.push(format!("let f = \\x ->\n    {}", body));
+            forms.push(format!("let f : Int -> _ = \\x ->\n    {}", body));
+        }
+        forms.push(format!("rec let f x =\n    {}", body));
+        forms.push(format!("rec let f = \\x ->\n    {}", body));
+        forms.push(format!("rec\nlet f x =\n    {}\nlet k y = f y", body));
+        forms.push(format!("rec let r = {{ f = \\x ->\n    {} }}\nlet f = r.f", if recursive { body.replace("f (", "r.f (") } else { body.to_string() }));
+        for form in &forms {
+            for u in &uses {
+                out.push(format!("{}{}\n{}\n// {}", head, form, u, bname));
+            }
+        }
+    }
+    // chains of matches on variables / wildcards / as-patterns
+    let pats = ["x", "_", "x @ _", "x @ y"];
+    for depth in 1..=3usize {
+        let mut idx = vec![0usize; depth];
+        loop {
+            let mut src = format!("{}let w = 1\n", head);
+            let mut scrut = "w".to_string();
+            for (d, pi) in idx.iter().enumerate() {
+                let pat = pats[*pi].replace('x', &format!("x{}", d)).replace('y', &format!("y{}", d));
+                src.push_str(&format!("{}match {} with\n{}| {} ->\n", "    ".repeat(d), scrut, "    ".repeat(d), pat));
+                if pat.starts_with('x') {
+                    scrut = format!("x{}", d);
+                }
+            }
+            src.push_str(&format!("{}{} #Int+ 1\n", "    ".repeat(depth), scrut));
+            out.push(src);
+            let mut k = 0;
+            loop {
+                if k == depth {
+                    break;
+                }
+                idx[k] += 1;
+                if idx[k] < pats.len() {
+                    break;
+                }
+                idx[k] = 0;
+                k += 1;
+            }
+            if k == depth {
+                break;
+            }
+        }
+    }
+    // record patterns whose alternatives name different fields
+    for (a, b) in [("{ x = 2 }", "{ y = 2 }"), ("{ x = 1 }", "{ x = 1, y = 3 }"), ("{ y = 2 }", "{ x }"), ("{ x, y = 9 }", "{ y }")] {
+        out.push(format!("{}match {{ x = 1, y = 2 }} with\n| {} -> 0\n| {} -> 1\n| _ -> 2\n", head, a, b));
+    }
+    out
+}
+
 fn merge(report: &mut Report, accs: Vec<Acc>, label: &str) -> (u64, u64) {
     let mut executed = 0;
     let mut accepted = 0;
@@ -392,6 +465,26 @@ pub fn run(tier: &str) -> Report {
     );
     capped |= sweep.capped;
     let (e, d) = merge(&mut report, sweep.results, "modules");
+    total += e;
+    distinct += d;
+
+    // (iv) products of binding forms: how a function / recursive value is bound x what its body
+    // refers to x how it is used; nested matches that only rename the scrutinee
+    let forms = binding_form_programs();
+    let forms_ref = &forms;
+    let sweep = par::sweep(
+        forms.len(),
+        8,
+        Some(deadline),
+        |_| Vms::new(grid_ref),
+        |vms, acc: &mut Acc, i| {
+            acc.hashes.insert(fnv(&forms_ref[i]));
+            exec(vms, acc, &forms_ref[i], "binding-form", &[]);
+        },
+    );
+    capped |= sweep.capped;
+    let (e, d) = merge(&mut report, sweep.results, "binding_forms");
+    report.set("binding_forms.programs", forms.len() as u64);
     total += e;
     distinct += d;
 
